@@ -434,6 +434,10 @@ def el_orders(solutes, which="all"):
     base = tuple(sorted(solutes))
     if which == "all":
         return [base] + [s for s in itertools.permutations(base) if s != base]
+    if which == "cycle":          # one rotation (for 3 names a 3-cycle: distinguishes a permutation from its inverse) and one swap
+        rot = base[1:] + base[:1]
+        swp = (base[1], base[0]) + base[2:]
+        return [base, rot] + ([swp] if swp != rot else [])
     return [base, tuple(which)]
 
 
@@ -689,14 +693,16 @@ HARNESSES = [
                               {"rule": "rcrit", "P": 3, "n": 2, "N": 2}, {"rule": "psd", "P": 3, "n": 2, "N": 2, "iso": True, "diss": [0, 1, 0]},
                               {"rule": "psd", "P": 2, "n": 2, "N": 2, "diss": [1, 0]}],
                     "thorough": [{"rule": r, "P": 3, "n": 3, "N": N} for r in ("volume", "nucleation", "rcrit") for N in (1, 2)]
-                                + [{"rule": "psd", "P": 3, "n": 2, "N": 2, "diss": [1, 0, 2]}, {"rule": "psd", "P": 2, "n": 3, "N": 2, "iso": True, "diss": [2, 0]}]}),
+                                + [{"rule": "psd", "P": 3, "n": 2, "N": 2, "diss": [1, 0, 1]}, {"rule": "psd", "P": 2, "n": 3, "N": 2, "iso": True, "diss": [2, 0]}]}),
     Harness("C11.get_dt", get_dt, functions=_FP, assumptions=_AP, bounds={"phases": "P", "size classes": "n"},
             opts={"max_paths": 3000, "branch_timeout_ms": 400}, budget={"quick": 150.0, "thorough": 1500.0},
             params={"quick": [{"P": 2, "n": 2, "N": 2, "checks": ["volume", "temperature", "rcrit"]},
                               {"P": 2, "n": 2, "N": 2, "checks": ["psd", "nucleation"], "iso": True, "diss": [0, 1]},
                               {"P": 2, "n": 2, "N": 1}, {"P": 3, "n": 2, "N": 2, "checks": ["volume", "temperature"]}],
-                    "thorough": [{"P": 3, "n": 2, "N": 2, "checks": ["volume", "temperature", "nucleation"]},
-                                 {"P": 3, "n": 2, "N": 2, "checks": ["psd", "rcrit"], "iso": True, "diss": [0, 1, 0]}, {"P": 2, "n": 2, "N": 2, "diss": [1, 0]}]}),
+                    "thorough": [{"P": 3, "n": 2, "N": 2, "checks": ["volume", "temperature", "rcrit"]},
+                                 {"P": 3, "n": 2, "N": 1, "checks": ["nucleation", "temperature"]},
+                                 {"P": 2, "n": 2, "N": 2, "checks": ["psd", "rcrit", "temperature"], "iso": True, "diss": [0, 1]},
+                                 {"P": 2, "n": 2, "N": 2, "checks": ["volume", "nucleation"]}]}),
     Harness("C11.nuc_sites", nuc_sites, functions=_FP, assumptions=_AP, bounds={"phases": "len(sites)"},
             params={"quick": [{"sites": ["bulk", "bulk", "gb"], "parents": [[], [0], []]},
                               {"sites": ["gb", "disl", "gb"], "parents": [[], [], [1]]},
@@ -714,9 +720,9 @@ HARNESSES = [
                               {"ref": "MO", "solutes": ["CR", "NB", "TI"], "kind": "tracer"}],
                     "thorough": [{"ref": r, "solutes": so, "kind": k} for k in ("tracer", "inter") for r, so in _NAMESETS]}),
     Harness("C11.driving_force", driving_force, functions=_FE, assumptions=_AE, stubs=_SE, bounds=_BE,
-            params={"quick": [{"ref": "FE", "solutes": ["CR", "NI"], "method": "tangent"}, {"ref": "ZR", "solutes": ["CR", "NI"], "method": "sampling"},
-                              {"ref": "AL", "solutes": ["CR", "NI"], "method": "approximate"}, {"ref": "MO", "solutes": ["CR", "NB", "TI"], "method": "curvature"},
-                              {"ref": "MO", "solutes": ["CR", "NB", "TI"], "method": "tangent"}],
+            params={"quick": [{"ref": "FE", "solutes": ["CR", "NI"], "method": "tangent"}, {"ref": "AL", "solutes": ["CR", "NI"], "method": "approximate"}]
+                             + [{"ref": r, "solutes": so, "method": me} for me in ("tangent", "sampling", "approximate", "curvature")
+                                for r, so in (("ZR", ["CR", "NI"]), ("MO", ["CR", "NB", "TI"]))],
                     "thorough": [{"ref": r, "solutes": so, "method": me} for me in ("tangent", "sampling", "approximate", "curvature") for r, so in _NAMESETS]}),
     Harness("C11.interfacial", interfacial, functions=_FE, assumptions=_AE, stubs=_SE, bounds=_BE,
             params={"quick": [{"ref": "FE", "solutes": ["CR", "NI"]}, {"ref": "ZR", "solutes": ["CR", "NI"], "ng": 1}],
@@ -728,9 +734,12 @@ HARNESSES = [
                     "thorough": [{"ref": r, "solutes": so} for r, so in _NAMESETS]}),
     Harness("C11.mobility", mobility, functions=_FE, assumptions=_AE, stubs=_SE, bounds=_BE,
             params={"quick": [{"ref": "FE", "solutes": ["C", "NI"]}, {"ref": "ZR", "solutes": ["CR", "NI"], "homog": "wiener lower"}],
-                    "thorough": [{"ref": r, "solutes": so, "homog": h} for h in ("wiener upper", "labyrinth") for r, so in _NAMESETS]}),
+                    "thorough": [dict({"ref": r, "solutes": so, "homog": h}, **({"sigma": "cycle", "_opts": {"ob_timeout": 60.0}} if len(so) > 2 else {}))
+                                 for h in ("wiener upper", "labyrinth") for r, so in _NAMESETS]}),
     Harness("C11.profile", profile, functions=_FE, assumptions=_AE + ["initial compositions in (0.01, 0.3) (above minComposition, sum below 1)"],
-            stubs=_SE, bounds=dict(_BE, nodes="N"),
+            stubs=_SE, bounds=dict(_BE, nodes="N (3 for two solutes; 2 for three solutes, where the time-step claim over 3 nodes did not finish)"),
+            budget={"quick": 90.0, "thorough": 900.0},
             params={"quick": [{"ref": "FE", "solutes": ["CR", "NI"], "N": 3}],
-                    "thorough": [{"ref": r, "solutes": so, "N": 3} for r, so in _NAMESETS]}),
+                    "thorough": [dict({"ref": r, "solutes": so}, **({"N": 2, "sigma": "cycle", "_opts": {"ob_timeout": 60.0}} if len(so) > 2 else {"N": 3}))
+                                 for r, so in _NAMESETS]}),
 ]
